@@ -15,7 +15,19 @@ Inductive case :=
        (r2s : list ((Z * Z) * seg))                    (* ((i0, n), doubled segment) *)
        (s2r : list (seg * (Z * Z)))                    (* segment_to_range *)
        (smp : list (Z * (Z * Z * Z)))                  (* d -> samples strict, loose, center *)
-| KCall (eps dur step start : Z) (support : sup) (align_last : bool) (obs : list seg).
+| KCall (eps dur step start : Z) (support : sup) (align_last : bool) (obs : list seg)
+(* tolerance tier: arbitrary binary64 parameters (decimal steps such as 0.01), every value given exactly as an integer
+   in units of 2^-130 s *)
+| KWinF (dur step start : Z) (wend : option Z)
+        (items : list (Z * option seg)) (len : option Z) (closest : list (Z * Z)) (r2s : list ((Z * Z) * seg)).
+
+(* A time computed by the float code from operands of total magnitude [slack] is within slack * 2^-44 of the exact
+   value (512 times the worst-case rounding error of a handful of binary64 operations); an index obtained by rounding
+   a quotient n / d is the rounding of some quotient within slack * 2^-40 / d of the exact one (see Check/C15.v). *)
+Definition closeb (a b slack : Z) : bool := Z.abs (a - b) * 2 ^ 44 <=? slack.
+Definition tol_ok (r : Z -> Z -> Z) (n d slack v : Z) : bool :=
+  let D := d * 2 ^ 40 in
+  (r (n * 2 ^ 40 - slack) D <=? v) && (v <=? r (n * 2 ^ 40 + slack) D).
 
 Definition check (c : case) : nat :=
   match c with
@@ -48,4 +60,32 @@ Definition check (c : case) : nat :=
           let segs := match support with SupSeg s => tl_of eps [s] | SupTl l => tl_of eps l end in
           if list_eqb seqb obs (win_call eps w segs al) then 0%nat else 1%nat
       end
+  | KWinF dur step start wend items len closest r2s =>
+      if (0 <? dur) && (0 <? step) then
+        let base := Z.abs start + dur + step in
+        let ok :=
+          forallb (fun kv =>
+                     let i := fst kv in
+                     let s_i := start + i * step in
+                     let slack := base + Z.abs i * step + match wend with Some e => Z.abs e | None => 0 end in
+                     match snd kv with
+                     | Some o => closeb (st o) s_i slack && closeb (en o) (s_i + dur) slack
+                                 && match wend with Some e => s_i * 2 ^ 44 <? e * 2 ^ 44 + slack | None => true end
+                     | None => match wend with Some e => e * 2 ^ 44 <=? s_i * 2 ^ 44 + slack | None => false end
+                     end) items
+          && match len, wend with
+             | Some n, Some e => tol_ok cdiv (e - start) step (base + Z.abs e) n
+             | None, None => true
+             | _, _ => false
+             end
+          && forallb (fun kv => let t := fst kv in
+                                tol_ok rhe (2 * (t - start) - dur) (2 * step) (2 * (base + Z.abs t)) (snd kv)) closest
+          && forallb (fun kv => let '(i0, n) := fst kv in
+                                let o := snd kv in
+                                let slack := 2 * (base + (Z.abs i0 + Z.abs n + 1) * step) in
+                                let s2 := 2 * start + (2 * i0 - 1) * step + dur in      (* doubled exact start *)
+                                closeb (2 * st o) (if i0 =? 0 then 2 * start else s2) slack
+                                && closeb (2 * en o) (s2 + 2 * n * step) slack) r2s in
+        if ok then 0%nat else 1%nat
+      else 1%nat
   end.
